@@ -77,8 +77,10 @@ def part(names, twins, key_prefix="crosshair"):
         for r in res:
             k = f"{key_prefix}:{r['fn']}"
             if r["fn"] in twins:
-                if r["verdict"] != "refuted":
-                    run.harness_error(k, f"reachability twin not refuted: {r}")
+                if r["verdict"] == "confirmed":
+                    run.harness_error(k, f"reachability twin was CONFIRMED (vacuous harness): {r}")
+                elif r["verdict"] != "refuted":
+                    run.inconc(k, f"reachability twin not decided: {r.get('why')}")
                 continue
             run.count({"confirmed": "unsat", "refuted": "sat"}.get(r["verdict"], "unknown"), r["secs"])
             if r["verdict"] == "refuted":
